@@ -262,6 +262,9 @@ func blockCase(cs *core.Case) {
 				return
 			}
 			if what, detail := cmpResults(a, b, rm); what != "" {
+				if what == "state-root" {
+					detail += "; accounts that differ (with -> without): " + stateDiff(chains[0], chains[k+1], w)
+				}
 				which := "first rejected transaction"
 				if k == 1 {
 					which = "all rejected transactions"
@@ -276,4 +279,30 @@ func blockCase(cs *core.Case) {
 	if cs.I == 0 && !corpus {
 		run.Sample(map[string]interface{}{"block_case": cs.I, "blocks": history})
 	}
+}
+
+// stateDiff names the accounts that differ between the head states of two chains.
+func stateDiff(a, b *chainkit.Chain, w *txgen.World) string {
+	sa, err1 := a.N.BC.State()
+	sb, err2 := b.N.BC.State()
+	if err1 != nil || err2 != nil {
+		return "(head state unavailable)"
+	}
+	x, err1 := sweep(sa)
+	y, err2 := sweep(sb)
+	if err1 != nil || err2 != nil {
+		return "(sweep failed)"
+	}
+	names := map[common.Hash]common.Address{}
+	for _, t := range w.Targets() {
+		names[addrHash(t)] = t
+	}
+	for t := range w.Accounts {
+		names[addrHash(t)] = t
+	}
+	d := x.diff(y, names)
+	if len(d) > 6 {
+		d = append(d[:6], fmt.Sprintf("... %d more", len(d)-6))
+	}
+	return strings.Join(d, "; ")
 }
